@@ -47,6 +47,9 @@ type FakeAuth struct {
 	// Fn, when set, answers a call instead of the script (it may block: concurrency choreography).
 	// It runs outside the mutex; returning nil falls back to the script.
 	Fn func(ep string, r *http.Request) *Answer
+	// PeerHeaders makes every answer carry the response headers real peers send and a correct client of this API ignores:
+	// Retry-After on 429/503, Cache-Control/ETag/Vary-less caching hints on 2xx.
+	PeerHeaders bool
 }
 
 // SetFn installs (or with nil removes) a per-request answer function.
@@ -114,6 +117,15 @@ func NewFakeAuth() *FakeAuth {
 				return
 			}
 		}
+		if f.PeerHeaders {
+			if a.Status == 429 || a.Status == 503 {
+				w.Header().Set("Retry-After", "120")
+			}
+			if a.Status >= 200 && a.Status < 300 {
+				w.Header().Set("Cache-Control", "max-age=300")
+				w.Header().Set("ETag", "\"v1\"")
+			}
+		}
 		w.WriteHeader(a.Status)
 		io.WriteString(w, a.Body)
 	}))
@@ -175,22 +187,23 @@ func (b *Backend) HostPort() string { return strings.TrimPrefix(b.Srv.URL, "http
 
 // ProxyOpts configures BuildProxy.
 type ProxyOpts struct {
-	YAML          string            // upstream configuration document
-	Cluster       string            // default "sso"
-	DefaultSlug   string            // default "google"
-	CookieSecure  bool
-	CookieDomain  string
-	CookieName    string            // default "_sso_proxy"
-	Lifetime      time.Duration     // default 720h
-	Valid         time.Duration     // default 60s... callers usually set explicitly
-	Grace         time.Duration
-	DefaultGroups []string
-	DefaultDomains []string
+	YAML             string // upstream configuration document
+	Cluster          string // default "sso"
+	DefaultSlug      string // default "google"
+	CookieSecure     bool
+	CookieDomain     string
+	CookieName       string        // default "_sso_proxy"
+	Lifetime         time.Duration // default 720h
+	Valid            time.Duration // default 60s... callers usually set explicitly
+	Grace            time.Duration
+	DefaultGroups    []string
+	DefaultDomains   []string
 	DefaultAddresses []string
-	SignerKey     string
-	Env           map[string]string // SSO_CONFIG_* template variables (lower-case keys without prefix)
-	Scheme        string            // default "http"
-	Dir           string            // scratch directory for the YAML file
+	SignerKey        string
+	Env              map[string]string // SSO_CONFIG_* template variables (lower-case keys without prefix)
+	Scheme           string            // default "http"
+	Dir              string            // scratch directory for the YAML file
+	ViaEnv           bool              // boot like cmd/sso-proxy: settings through environment variables + proxy.LoadConfig + Validate
 }
 
 // ProxyWorld is a real sso-proxy built by proxy.New around a fake authenticator.
@@ -249,26 +262,67 @@ func BuildProxy(o ProxyOpts, auth *FakeAuth) (*ProxyWorld, error) {
 		defer os.Unsetenv("SSO_CONFIG_" + strings.ToUpper(k))
 	}
 
-	cfg := proxy.DefaultProxyConfig()
-	cfg.ProviderConfig.ProviderURLConfig.External = auth.Srv.URL
-	cfg.ClientConfig.ID = "client-id"
-	cfg.ClientConfig.Secret = "client-secret"
-	cfg.SessionConfig.CookieConfig.Secret = base64.StdEncoding.EncodeToString(FixedSecret)
-	cfg.SessionConfig.CookieConfig.Secure = o.CookieSecure
-	cfg.SessionConfig.CookieConfig.Domain = o.CookieDomain
-	cfg.SessionConfig.CookieConfig.Name = o.CookieName
-	cfg.SessionConfig.TTLConfig.Lifetime = o.Lifetime
-	cfg.SessionConfig.TTLConfig.Valid = o.Valid
-	cfg.SessionConfig.TTLConfig.GracePeriod = o.Grace
-	cfg.UpstreamConfigs.ConfigsFile = f.Name()
-	cfg.UpstreamConfigs.Cluster = o.Cluster
-	cfg.UpstreamConfigs.Scheme = o.Scheme
-	cfg.UpstreamConfigs.DefaultConfig.ProviderSlug = o.DefaultSlug
-	cfg.UpstreamConfigs.DefaultConfig.AllowedGroups = o.DefaultGroups
-	cfg.UpstreamConfigs.DefaultConfig.EmailConfig.AllowedDomains = o.DefaultDomains
-	cfg.UpstreamConfigs.DefaultConfig.EmailConfig.AllowedAddresses = o.DefaultAddresses
-	cfg.RequestSignerConfig.Key = o.SignerKey
-	cfg.LoggingConfig.Enable = false
+	var cfg proxy.Configuration
+	if o.ViaEnv {
+		// boot the way cmd/sso-proxy does: every setting through the environment and proxy.LoadConfig
+		env := map[string]string{
+			"PROVIDER_URL_EXTERNAL":            auth.Srv.URL,
+			"CLIENT_ID":                        "client-id",
+			"CLIENT_SECRET":                    "client-secret",
+			"SESSION_COOKIE_SECRET":            base64.StdEncoding.EncodeToString(FixedSecret),
+			"SESSION_COOKIE_SECURE":            fmt.Sprint(o.CookieSecure),
+			"SESSION_COOKIE_DOMAIN":            o.CookieDomain,
+			"SESSION_COOKIE_NAME":              o.CookieName,
+			"SESSION_TTL_LIFETIME":             o.Lifetime.String(),
+			"SESSION_TTL_VALID":                o.Valid.String(),
+			"SESSION_TTL_GRACEPERIOD":          o.Grace.String(),
+			"UPSTREAM_CONFIGFILE":              f.Name(),
+			"UPSTREAM_CLUSTER":                 o.Cluster,
+			"UPSTREAM_SCHEME":                  o.Scheme,
+			"UPSTREAM_DEFAULT_PROVIDER":        o.DefaultSlug,
+			"UPSTREAM_DEFAULT_GROUPS":          strings.Join(o.DefaultGroups, ","),
+			"UPSTREAM_DEFAULT_EMAIL_DOMAINS":   strings.Join(o.DefaultDomains, ","),
+			"UPSTREAM_DEFAULT_EMAIL_ADDRESSES": strings.Join(o.DefaultAddresses, ","),
+			"REQUESTSIGNER_KEY":                o.SignerKey,
+			"LOGGING_ENABLE":                   "false",
+		}
+		for k, v := range env {
+			if v == "" {
+				continue
+			}
+			os.Setenv(k, v)
+			defer os.Unsetenv(k)
+		}
+		var err error
+		cfg, err = proxy.LoadConfig()
+		if err != nil {
+			return nil, err
+		}
+		if err := cfg.Validate(); err != nil {
+			return nil, err
+		}
+	} else {
+		cfg = proxy.DefaultProxyConfig()
+		cfg.ProviderConfig.ProviderURLConfig.External = auth.Srv.URL
+		cfg.ClientConfig.ID = "client-id"
+		cfg.ClientConfig.Secret = "client-secret"
+		cfg.SessionConfig.CookieConfig.Secret = base64.StdEncoding.EncodeToString(FixedSecret)
+		cfg.SessionConfig.CookieConfig.Secure = o.CookieSecure
+		cfg.SessionConfig.CookieConfig.Domain = o.CookieDomain
+		cfg.SessionConfig.CookieConfig.Name = o.CookieName
+		cfg.SessionConfig.TTLConfig.Lifetime = o.Lifetime
+		cfg.SessionConfig.TTLConfig.Valid = o.Valid
+		cfg.SessionConfig.TTLConfig.GracePeriod = o.Grace
+		cfg.UpstreamConfigs.ConfigsFile = f.Name()
+		cfg.UpstreamConfigs.Cluster = o.Cluster
+		cfg.UpstreamConfigs.Scheme = o.Scheme
+		cfg.UpstreamConfigs.DefaultConfig.ProviderSlug = o.DefaultSlug
+		cfg.UpstreamConfigs.DefaultConfig.AllowedGroups = o.DefaultGroups
+		cfg.UpstreamConfigs.DefaultConfig.EmailConfig.AllowedDomains = o.DefaultDomains
+		cfg.UpstreamConfigs.DefaultConfig.EmailConfig.AllowedAddresses = o.DefaultAddresses
+		cfg.RequestSignerConfig.Key = o.SignerKey
+		cfg.LoggingConfig.Enable = false
+	}
 
 	if err := proxy.SetUpstreamConfigs(&cfg.UpstreamConfigs, cfg.SessionConfig.CookieConfig, &cfg.ServerConfig); err != nil {
 		return nil, err
@@ -307,11 +361,25 @@ func (w *ProxyWorld) Open(v string) *sessions.SessionState {
 }
 
 // Do runs one request through the proxy handler and returns the recorded response.
-func (w *ProxyWorld) Do(req *http.Request) *httptest.ResponseRecorder {
-	rec := httptest.NewRecorder()
+// PanicStatus is the status recorded for a request whose handler panicked: net/http's server recovers such a panic
+// and drops the connection, so the client gets no response at all. The observation is judged like any other.
+const PanicStatus = 599
+
+func (w *ProxyWorld) Do(req *http.Request) (rec *httptest.ResponseRecorder) {
+	rec = httptest.NewRecorder()
+	defer func() {
+		if e := recover(); e != nil {
+			Panics++
+			rec = httptest.NewRecorder()
+			rec.Code = PanicStatus
+		}
+	}()
 	w.Handler.ServeHTTP(rec, req)
 	return rec
 }
+
+// Panics counts handler panics recovered by Do (drivers may report them).
+var Panics int
 
 // NewReq builds a server-side request as net/http would hand it to a handler.
 func NewReq(method, host, target string) *http.Request {
